@@ -967,6 +967,15 @@ theorem src_tee_is_model (f : Nat) (st : St α) (i n : Nat) :
   stepP_tee f st i n
 
 open ALV.C03.Src in
+/-- the call layer's reading of `lazy_itertools.tee` comes from the source too: the else arm on a non-iterable
+    (`tuple(data for unused in xrange(n))`: `n` times the same object, nothing built) and the default `n=2` -/
+theorem src_tee_call_is_model (v : α) (k : Int) (d : CArg α) :
+    elabCall (.tee (.scalar v) (some (.int k))) = .ret (teeScalarP ALV.Gen.C03.tee v k.toNat) ∧
+    sigDefault ALV.Gen.C03.sigs "lazy_itertools.tee" "n" = some (some "2") ∧
+    elabCall (.tee d none) = elabCall (.tee d (some (.int 2))) :=
+  ⟨rfl, by decide, rfl⟩
+
+open ALV.C03.Src in
 /-- **the model's step function is the interpretation of the regenerated programs**, for every fuel, state and
     operation (take / peek / skip / limit / append / map / filter / copy on Streams and StreamTeeHubs, `thub`,
     `StreamTeeHub.__init__` and `lazy_itertools.tee` come from the programs; `next(iter(x))`, `list(x)` and the
